@@ -546,11 +546,7 @@ class UnionMetaType(StructureMetaType):
 
         if fields:
             field = fields[0]
-            if isinstance(field.type, StructureMetaType) and field.name is None:
-                # The fields of an anonymous structure live on the union itself
-                field.type._write(stream, data)
-            else:
-                field.type._write(stream, getattr(data, field._name))
+            field.type._write(stream, getattr(data, field._name))
 
         # If we haven't filled the union size yet, pad it
         if remaining := expected_offset - stream.tell():
